@@ -136,6 +136,10 @@ func main() {
 		beh := beh
 		runOne(func(c *gsim.Cluster) {
 			for _, a := range beh {
+				if len(a) > 0 && str(a[0]) == "SelectionStats" {
+					c.SelectionStats(str(a[1]), num(a[2]), emit)
+					continue
+				}
 				if len(a) > 0 && str(a[0]) == "Closure" {
 					max := num(a[1])
 					if max < 0 {
@@ -290,6 +294,8 @@ func exec(c *gsim.Cluster, a []interface{}) *gsim.Step {
 		return c.Expire(str(arg(1)), num(arg(2)))
 	case "Crash":
 		return c.Crash(str(arg(1)))
+	case "GossipRound":
+		return c.GossipRound(str(arg(1)))
 	case "Hostile":
 		b, _ := hex.DecodeString(str(arg(2)))
 		return c.Hostile(str(arg(1)), b, "replay")
